@@ -820,6 +820,23 @@ package decimal
 //@   use V2_split(m, lo, lo+1, hi)
 //@   use V2def(m, lo, lo)
 
+//@ lemma V2_eq(m array, n array, lo, hi)
+//@   requires lo <= hi
+//@   requires forall k in lo..hi :: m[k] == n[k]
+//@   ensures V2(m, lo, hi) == V2(n, lo, hi)
+//@   induction hi from lo
+//@   use V2def(m, lo, hi-1)
+//@   use V2def(n, lo, hi-1)
+
+//@ lemma V2_nonneg(m array, lo, hi)
+//@   requires lo <= hi
+//@   requires forall k in lo..hi :: 0 <= m[k]
+//@   ensures 0 <= V2(m, lo, hi)
+//@   induction hi from lo
+//@   use V2def(m, lo, hi-1)
+//@   use P2def(hi-1-lo)
+//@   use mul_mono(0, m[hi-1], P2(hi-1-lo))
+
 //@ func divWVW_g(z []Word, xn Word, x []Word, y Word) (r Word)
 //@   requires[len]     len(x) >= len(z)
 //@   requires[div]     xn < y
